@@ -1241,7 +1241,8 @@ fn rand_refs(w: &mut World, seed: u64, steps: u64) {
                 }
             }
             77..=82 => o.op = "unlink".into(),
-            83..=84 => o.op = "rmdir".into(),
+            83 => o.op = "rmdir".into(),
+            84 => o.op = if rng.chance(1, 2) { "rmdir" } else { "init" }.into(),
             85..=90 => {
                 o.op = "rename".into();
                 o.p2 = *rng.pick(&dirs);
@@ -1413,7 +1414,9 @@ fn rand_res(w: &mut World, seed: u64, steps: u64) {
                 o.p2 = *rng.pick(&dirs);
                 o.name2 = rng.pick(&NAMES).to_string();
             }
-            95..=96 => o.op = "mkdir".into(),
+            95 => o.op = "mkdir".into(),
+            // a second INIT without a DESTROY: everything the client holds stays valid
+            96 => o.op = "init".into(),
             _ => {
                 let d = Op::new("destroy");
                 w.exec(&d);
